@@ -94,6 +94,17 @@ def as_caller_bytes(b, k):
     return Octets(b) if k % 5 == 4 else bytes(b)
 
 
+def as_caller_buffer(b, k):
+    """where a signature says "raw bytes" of a received datagram: what a socket / transport / capture library hands over -
+    bytes, a subclass of bytes, a bytearray (recv_into buffers) or a memoryview slice of a larger receive buffer"""
+    m = k % 7
+    if m == 3:
+        return bytearray(b)
+    if m == 5:
+        return memoryview(b"\x00" + bytes(b) + b"\x00")[1:-1]
+    return Octets(b) if m == 6 else bytes(b)
+
+
 def full_lc_other(rng, sub, ident=None):
     """the full link controls that are not voice channel users: sub = "gps" (GPS Info, coordinates on the 25 / 24 bit grid,
     both signs and the extremes) or "ta" (talker alias header / blocks 1..3).  ident: a burst id to carry (these link controls
